@@ -76,7 +76,7 @@ def _colfn_outcomes(max_arity):
             for tup in itertools.product(uni, repeat=k):
                 try:
                     e = ColFn(o, *[mk(t) for t in tup])
-                    r = ("match", C.tok(types.without_const(e.dtype())))
+                    r = ("match", C.tok(types.without_const(e.dtype())), bool(types.is_const(e.dtype())))
                 except Exception as ex:  # noqa: BLE001
                     r = ("error", type(ex).__name__)
                 out[(n, tuple(C.tok(t) for t in tup))] = r
@@ -172,6 +172,9 @@ def phase_resolve(ctx, phase):
             fail("resolve-internal", key, f"ColFn construction raised {r[1]}", exc=r[1])
         elif (r[0] == "match") != (c[0] == "match"):
             fail("resolve", key, f"ColFn construction {r} but return_type {c}")
+        elif r[0] == "match" and spec[key]["o"] == "match" and r[2] != spec[key]["rc"]:
+            fail("const-result", key, f"the expression type is {'const' if r[2] else 'not const'}, specification: {'const' if spec[key]['rc'] else 'not const'} "
+                                      "(only an element-wise operator applied to constants yields a constant)")
     # independence of declaration order and hash order
     import concurrent.futures as cf
 
@@ -1166,6 +1169,10 @@ def _argspace_exec(args):
                         frames[key].write_database(name, eng, if_table_exists="replace")
                     t = tbl(bk, key, name)
                     kw = dict(partition_by=t.g) if c["mode"] == "window" else {}
+                    if c.get("flt", "none") == "vpos":
+                        kw["filter"] = t.v > 0
+                    elif c.get("flt") == "list":
+                        kw["filter"] = [t.v > -5, t.v < 2]
                     e = pdt.count(**kw) if c["op"] == "len" else getattr(t.v, c["op"])(**kw)
 
                     def enc(x):
@@ -1217,6 +1224,15 @@ def _argspace_exec(args):
                         lt, rt = pdt.Table(frames[("l", tuple(c["l"]))]), pdt.Table(frames[("r", tuple(c["r"]))])
                     on = ("k" if c["on"] == "str" else (lt.k == rt.k) if c["on"] == "eq" else (lt.k <= rt.k) if c["on"] == "le"
                           else (lt.k == rt.k) & (lt.lid <= rt.rid))
+                    fm = c.get("form", "and")
+                    if fm == "list":
+                        on = [lt.k == rt.k, lt.lid <= rt.rid]
+                    elif fm == "all":
+                        on = pdt.all(lt.k == rt.k, lt.lid <= rt.rid)
+                    elif fm == "and3":
+                        on = (lt.k == rt.k) & (lt.k <= rt.k) & (lt.lid <= rt.rid)
+                    elif fm == "all3":
+                        on = pdt.all(lt.k == rt.k, lt.k <= rt.k, lt.lid <= rt.rid)
                     df = lt >> join(rt, on, how=c["how"]) >> export(pdt.Polars())
                     rec["out"] = [[a or 0, b or 0] for a, b in zip(df["lid"].to_list(), df["rid"].to_list())]
                 else:
@@ -1285,8 +1301,8 @@ def phase_argspace(ctx, phase):
         if v["verdict"] != "ok":
             clause = "order" if v["verdict"] == "order" else "rows" if v["verdict"] in ("rows", "row-count", "values", "groups") else ("names" if v["verdict"] == "names" else "export-error" if v["verdict"] == "unexpected-error" else "errclass")
             what = (f"{c['size']} rows, arrange(rid) >> " + (" >> alias() >> " if c["alias"] else " >> ").join(f"slice_head({n}, offset={k})" for n, k in c["args"])
-                    if c["verb"] == "slices" else f"keys {c['l']} join keys {c['r']} (0 = null) how={c['how']} on={c['on']}" if c["verb"] == "joinrows"
-                    else f"(g, v) rows {c['rows']} (99 = null): {c['op']} {c['mode']}" if c["verb"] == "agg"
+                    if c["verb"] == "slices" else f"keys {c['l']} join keys {c['r']} (0 = null) how={c['how']} on={c['on']} form={c.get('form')}" if c["verb"] == "joinrows"
+                    else f"(g, v) rows {c['rows']} (99 = null): {c['op']} {c['mode']} filter={c.get('flt')}" if c["verb"] == "agg"
                     else (f"(k1, k2) rows {c['rows']} (99 = null): arrange(k1{'.descending()' if c['d1'] else ''}.nulls_{c['n1']}(), "
                           f"k2{'.descending()' if c['d2'] else ''}.nulls_{c['n2']}()){' >> slice_head(2)' if c['take'] else ''}") if c["verb"] == "arrange"
                     else "mutate(" + ", ".join(f"{n}={x}" for n, x in zip(c["names"], c["exprs"])) + ") on a=[1,2], b=[10,20]" if c["verb"] == "mutate"
